@@ -5,20 +5,16 @@ C01 — bridge between the two C01 layers:
   (B) the reference evaluator `Compile.eval` of the compiler model (`Model/Compile.lean`), which is
       parametric in an operator semantics `Sem`.
 
-`coreSem F` instantiates `Sem` with exactly the value operations `Core.eval` uses, `toCore` embeds
-the compiler model's expression language into the guide's syntax, and `lockstep` shows that on
-well-formed expressions the two evaluators agree step for step (same value, same environment, same
-error/success status, no output) — with ONE exception, which is a genuine difference between the
-two models and is stated as an explicit predicate (`Ok`):
+`coreSem F` instantiates `Sem` with exactly the value operations `Core.eval` uses (`binop` = `arithV`
+/ `cmpV`, `compoundop` = `opAssignV`), `toCore` embeds the compiler model's expression language into
+the guide's syntax, and `lockstep` shows that on well-formed expressions, from related
+environments, the two evaluators agree step for step: same value, same final environment, same
+error/success status, no output — without exception.
 
-  `x op= e` — `Compile.eval` computes it with the *same* `Sem.binop` as `x op e`, whereas the guide
-  (and the runtime: `run_compound_assign_op!`) accepts numbers only. `x += x` with `x` a string is
-  `some "aa"` in `Compile.eval (coreSem F)` and a type error in `Core.eval`
-  (`compound_disagrees` below). The difference needs a string / list / tuple / map operand, which
-  the compiler model's fragment cannot construct from the empty environment (its literals are
-  `null`, booleans and integers): `Ok e ρ` = "`e` has no compound assignment, or every value bound
-  in `ρ` is plain (not a string / list / tuple / map)". Plainness is preserved by evaluation
-  (`ceval_plain`), and the empty environment is plain, so whole programs are not affected.
+History: `Sem` originally had one `binop` for both `x op e` and `x op= e`; the guide (and the
+runtime's `run_compound_assign_op!`) accepts numbers only in compound assignment whereas `+` also
+joins strings / lists / tuples / maps, so the two models differed on `x += x` with `x = 'a'`. `Sem`
+now has a separate `compoundop`; `compound_regression_witness` keeps the old behaviour on record.
 -/
 import KotoVerif.Model.Compile
 import KotoVerif.Lemmas.C01Eval
@@ -46,8 +42,8 @@ def toCmp : Compile.BinOp → CmpOp
   | _ => .eq
 
 /-- the operator semantics of the language guide: exactly the value operations `Core.eval` applies
-for literals, `-`/`not`, `+ - * / % ^` (`arithV`) and the six comparisons (`cmpV`); an error
-(including `unmodelled`) is `none` -/
+for literals, `-`/`not`, `+ - * / % ^` (`arithV`), the six comparisons (`cmpV`) and compound
+assignment (`opAssignV`: numbers only); an error (including `unmodelled`) is `none` -/
 @[reducible] def coreSem (F : FloatOps) : Compile.Sem where
   V := Val
   null := Val.null
@@ -61,6 +57,7 @@ for literals, `-`/`not`, `+ - * / % ^` (`arithV`) and the six comparisons (`cmpV
   binop op a b :=
     if op.isComparison then ofExcept ((cmpV F (toCmp op) a b).map Val.bool)
     else ofExcept (arithV F (toArith op) a b)
+  compoundop op a b := ofExcept (opAssignV F (toArith op) a b)
 
 /-- the embedding of the compiler model's expressions into the guide's syntax -/
 def toCore : Compile.Expr → Core.Expr
@@ -100,28 +97,6 @@ def wfE : Compile.Expr → Bool
 def EnvRel {F : FloatOps} (ρ : Compile.Env (coreSem F)) (env : List (Nat × Val)) : Prop :=
   ∀ x, ρ x = Core.lookup x env
 
-/-! ## the exclusion: compound assignment on joinable values -/
-
-/-- no `x op= e` anywhere in the expression -/
-def noCompound : Compile.Expr → Bool
-  | .null | .bool _ | .int _ | .var _ => true
-  | .un _ a => noCompound a
-  | .bin _ a b | .cmp _ a b | .and a b | .or a b | .seq a b | .ifThen a b => noCompound a && noCompound b
-  | .chain3 _ _ a b c | .ite a b c => noCompound a && noCompound b && noCompound c
-  | .assign _ e => noCompound e
-  | .compound _ _ _ => false
-
-/-- a value that `+` does not join: not a string / list / tuple / map -/
-def plain : Val → Bool
-  | .str _ | .list _ | .tuple _ | .map _ => false
-  | _ => true
-
-def PlainEnv {F : FloatOps} (ρ : Compile.Env (coreSem F)) : Prop := ∀ x v, ρ x = some v → plain v = true
-
-/-- where the two evaluators are claimed to agree -/
-def Ok {F : FloatOps} (e : Compile.Expr) (ρ : Compile.Env (coreSem F)) : Prop :=
-  noCompound e = true ∨ PlainEnv ρ
-
 /-- fuel that suffices for `toCore e` (there are no loops in the fragment) -/
 def need : Compile.Expr → Nat
   | .null | .bool _ | .int _ | .var _ => 1
@@ -137,16 +112,21 @@ def need : Compile.Expr → Nat
 theorem need_pos (e : Compile.Expr) : 1 ≤ need e := by
   cases e <;> simp only [need] <;> omega
 
-/-! ## the disagreement, concretely -/
+/-! ## regression witness: why `Sem` has a separate `compoundop` -/
+
+/-- `coreSem F` as it had to be defined while `Sem` had no `compoundop`: compound assignment computed
+with the binary operator -/
+def coreSemOld (F : FloatOps) : Compile.Sem := { coreSem F with compoundop := (coreSem F).binop }
 
 /-- `x += x` -/
 def progCompound : Compile.Expr := .compound .add 0 (.var 0)
 
-/-- **the two models differ on `x op= e`.** With `x = 'a'`: `Compile.eval (coreSem F)` computes
-`x + x = 'aa'` (it uses the one `Sem.binop` for `+` and `+=`), the guide semantics — like the
-runtime's `run_compound_assign_op!` — raises a type error. -/
-theorem compound_disagrees :
-    (Compile.eval (coreSem stubFloatOps) progCompound
+/-- **regression witness.** With `compoundop := binop` the two models would differ on `x += x`,
+`x = 'a'`: `Compile.eval` would compute `x + x = 'aa'`, the guide semantics — like the runtime's
+`run_compound_assign_op!` — raises a type error. (With `coreSem` itself both fail:
+`Props/C01Bridge.lean`.) -/
+theorem compound_regression_witness :
+    (Compile.eval (coreSemOld stubFloatOps) progCompound
         (fun x => if x = 0 then some (Val.str [97]) else none)).map (·.1) matches some (Val.str [97, 97])
     ∧ (Core.eval stubFloatOps 5 (toCore progCompound) { env := [(0, Val.str [97])] }).1 matches .err .type := by
   constructor
@@ -183,41 +163,6 @@ theorem EnvRel.set {F : FloatOps} {ρ : Compile.Env (coreSem F)} {s : St} (h : E
 
 theorem EnvRel.empty {F : FloatOps} : EnvRel (F := F) (fun _ => none) ({} : St).env := by
   intro x; rfl
-
-/-- on plain left operands compound assignment and the binary operator coincide -/
-theorem opAssignV_plain (F : FloatOps) (op : ArithOp) (a b : Val) (h : plain a = true) :
-    opAssignV F op a b = arithV F op a b := by
-  cases a <;> cases b <;> cases op <;> first | rfl | simp [plain] at h
-
-theorem arithV_plain (F : FloatOps) (op : ArithOp) (a b r : Val) (h : plain a = true)
-    (hr : arithV F op a b = .ok r) : plain r = true := by
-  cases a <;> cases b <;> cases op <;> simp [plain] at h <;> simp [arithV] at hr
-  all_goals
-    simp only [arithNum] at hr
-    first
-      | (cases hr; rfl)
-      | (split at hr <;> cases hr <;> rfl)
-
-theorem binop_plain (F : FloatOps) (op : Compile.BinOp) (a b r : Val) (h : plain a = true)
-    (hr : (coreSem F).binop op a b = some r) : plain r = true := by
-  simp only [coreSem] at hr
-  split at hr
-  · cases hc : cmpV F (toCmp op) a b with
-    | error e => simp [hc, Except.map, ofExcept] at hr
-    | ok c => simp only [hc, Except.map, ofExcept, Option.some.injEq] at hr; subst hr; rfl
-  · cases hc : arithV F (toArith op) a b with
-    | error e => simp [hc, ofExcept] at hr
-    | ok c =>
-      simp only [hc, ofExcept, Option.some.injEq] at hr; subst hr
-      exact arithV_plain F _ a b c h hc
-
-theorem unop_plain (F : FloatOps) (op : Compile.UnOp) (a r : Val)
-    (hr : (coreSem F).unop op a = some r) : plain r = true := by
-  cases op with
-  | neg =>
-    cases a <;> simp [coreSem, negV, ofExcept] at hr
-    subst hr; rfl
-  | not => simp only [coreSem, Option.some.injEq] at hr; subst hr; rfl
 
 /-! ## `Compile.eval` in bind form -/
 
@@ -291,7 +236,7 @@ theorem ceval_compound (op : Compile.BinOp) (x : Nat) (e : Compile.Expr) (ρ : C
     Compile.eval S (.compound op x e) ρ
       = match ρ x with
         | some vx => obind (Compile.eval S e ρ) fun vr ρ1 =>
-            (S.binop op vx vr).map (fun r => (r, Compile.Env.set ρ1 x r))
+            (S.compoundop op vx vr).map (fun r => (r, Compile.Env.set ρ1 x r))
         | none => none := by
   simp only [Compile.eval, obind]
   repeat' (first | rfl | split)
@@ -316,131 +261,6 @@ theorem ceval_ifThen (c t : Compile.Expr) (ρ : Compile.Env S) :
   repeat' (first | rfl | split)
 
 end
-
-/-! ## plain values stay plain under `Compile.eval (coreSem F)` -/
-
-theorem PlainEnv.set {F : FloatOps} {ρ : Compile.Env (coreSem F)} (h : PlainEnv ρ) (x : Nat) (v : Val)
-    (hv : plain v = true) : PlainEnv (Compile.Env.set ρ x v) := by
-  intro y w hy
-  simp only [Compile.Env.set] at hy
-  split at hy
-  · cases hy; exact hv
-  · exact h y w hy
-
-theorem PlainEnv.empty {F : FloatOps} : PlainEnv (F := F) (fun _ => none) := by
-  intro x v h; cases h
-
-theorem ceval_plain (F : FloatOps) : ∀ (e : Compile.Expr) (ρ ρ' : Compile.Env (coreSem F)) (v : Val),
-    PlainEnv ρ → Compile.eval (coreSem F) e ρ = some (v, ρ') → plain v = true ∧ PlainEnv ρ' := by
-  intro e
-  induction e with
-  | null | bool _ | int _ =>
-    intro ρ ρ' v hp h
-    simp only [Compile.eval, Option.some.injEq, Prod.mk.injEq] at h
-    obtain ⟨h1, h2⟩ := h; subst h1 h2; exact ⟨rfl, hp⟩
-  | var x =>
-    intro ρ ρ' v hp h
-    simp only [Compile.eval, Option.map_eq_some_iff, Prod.mk.injEq] at h
-    obtain ⟨w, hw, h1, h2⟩ := h; subst h1 h2
-    exact ⟨hp x w hw, hp⟩
-  | un op a iha =>
-    intro ρ ρ' v hp h
-    rw [ceval_un] at h
-    obtain ⟨va, ρ1, ha, h⟩ := obind_some h
-    simp only [Option.map_eq_some_iff, Prod.mk.injEq] at h
-    obtain ⟨r, hr, h1, h2⟩ := h; subst h1 h2
-    exact ⟨unop_plain F op va r hr, (iha ρ ρ1 va hp ha).2⟩
-  | bin op a b iha ihb | cmp op a b iha ihb =>
-    intro ρ ρ' v hp h
-    first | rw [ceval_bin] at h | rw [ceval_cmp] at h
-    obtain ⟨va, ρ1, ha, h⟩ := obind_some h
-    obtain ⟨vb, ρ2, hb, h⟩ := obind_some h
-    simp only [Option.map_eq_some_iff, Prod.mk.injEq] at h
-    obtain ⟨r, hr, h1, h2⟩ := h; subst h1 h2
-    have h1 := iha ρ ρ1 va hp ha
-    exact ⟨binop_plain F op va vb r h1.1 hr, (ihb ρ1 ρ2 vb h1.2 hb).2⟩
-  | chain3 op1 op2 a b c iha ihb ihc =>
-    intro ρ ρ' v hp h
-    rw [ceval_chain3] at h
-    obtain ⟨va, ρ1, ha, h⟩ := obind_some h
-    obtain ⟨vb, ρ2, hb, h⟩ := obind_some h
-    have h1 := iha ρ ρ1 va hp ha
-    have h2 := ihb ρ1 ρ2 vb h1.2 hb
-    cases hb1 : (coreSem F).binop op1 va vb with
-    | none => rw [hb1] at h; cases h
-    | some r1 =>
-      rw [hb1] at h
-      simp only at h
-      split at h
-      · obtain ⟨vc, ρ3, hc, h⟩ := obind_some h
-        simp only [Option.map_eq_some_iff, Prod.mk.injEq] at h
-        obtain ⟨r, hr, e1, e2⟩ := h; subst e1 e2
-        exact ⟨binop_plain F op2 vb vc r h2.1 hr, (ihc ρ2 ρ3 vc h2.2 hc).2⟩
-      · simp only [Option.some.injEq, Prod.mk.injEq] at h
-        obtain ⟨e1, e2⟩ := h; subst e1 e2
-        exact ⟨binop_plain F op1 va vb r1 h1.1 hb1, h2.2⟩
-  | and a b iha ihb =>
-    intro ρ ρ' v hp h
-    rw [ceval_and] at h
-    obtain ⟨va, ρ1, ha, h⟩ := obind_some h
-    have h1 := iha ρ ρ1 va hp ha
-    split at h
-    · exact ihb ρ1 ρ' v h1.2 h
-    · simp only [Option.some.injEq, Prod.mk.injEq] at h
-      obtain ⟨e1, e2⟩ := h; subst e1 e2; exact h1
-  | or a b iha ihb =>
-    intro ρ ρ' v hp h
-    rw [ceval_or] at h
-    obtain ⟨va, ρ1, ha, h⟩ := obind_some h
-    have h1 := iha ρ ρ1 va hp ha
-    split at h
-    · simp only [Option.some.injEq, Prod.mk.injEq] at h
-      obtain ⟨e1, e2⟩ := h; subst e1 e2; exact h1
-    · exact ihb ρ1 ρ' v h1.2 h
-  | assign x e ih =>
-    intro ρ ρ' v hp h
-    rw [ceval_assign] at h
-    obtain ⟨ve, ρ1, he, h⟩ := obind_some h
-    simp only [Option.some.injEq, Prod.mk.injEq] at h
-    obtain ⟨e1, e2⟩ := h; subst e1 e2
-    have h1 := ih ρ ρ1 ve hp he
-    exact ⟨h1.1, h1.2.set x ve h1.1⟩
-  | compound op x e ih =>
-    intro ρ ρ' v hp h
-    rw [ceval_compound] at h
-    cases hx : ρ x with
-    | none => rw [hx] at h; cases h
-    | some vx =>
-      rw [hx] at h
-      simp only at h
-      obtain ⟨ve, ρ1, he, h⟩ := obind_some h
-      simp only [Option.map_eq_some_iff, Prod.mk.injEq] at h
-      obtain ⟨r, hr, e1, e2⟩ := h; subst e1 e2
-      have h1 := ih ρ ρ1 ve hp he
-      have hr' := binop_plain F op vx ve r (hp x vx hx) hr
-      exact ⟨hr', h1.2.set x r hr'⟩
-  | seq a b iha ihb =>
-    intro ρ ρ' v hp h
-    rw [ceval_seq] at h
-    obtain ⟨va, ρ1, ha, h⟩ := obind_some h
-    exact ihb ρ1 ρ' v (iha ρ ρ1 va hp ha).2 h
-  | ite c t e ihc iht ihe =>
-    intro ρ ρ' v hp h
-    rw [ceval_ite] at h
-    obtain ⟨vc, ρ1, hc, h⟩ := obind_some h
-    have h1 := ihc ρ ρ1 vc hp hc
-    split at h
-    · exact iht ρ1 ρ' v h1.2 h
-    · exact ihe ρ1 ρ' v h1.2 h
-  | ifThen c t ihc iht =>
-    intro ρ ρ' v hp h
-    rw [ceval_ifThen] at h
-    obtain ⟨vc, ρ1, hc, h⟩ := obind_some h
-    have h1 := ihc ρ ρ1 vc hp hc
-    split at h
-    · exact iht ρ1 ρ' v h1.2 h
-    · simp only [Option.some.injEq, Prod.mk.injEq] at h
-      obtain ⟨e1, e2⟩ := h; subst e1 e2; exact ⟨rfl, h1.2⟩
 
 /-! ## `Core.eval` on the image of `toCore`, one step -/
 
@@ -581,31 +401,23 @@ theorem agree_cmp_last {F : FloatOps} {op : Compile.BinOp} (hop : op.isCompariso
   | error e => exact Agree.err e s2 _
   | ok b => cases b <;> exact Agree.ok hr
 
-theorem Ok.mono {F : FloatOps} {e a : Compile.Expr} {ρ : Compile.Env (coreSem F)} (h : Ok e ρ)
-    (hs : noCompound e = true → noCompound a = true) : Ok a ρ := h.imp hs id
-
-theorem Ok.step {F : FloatOps} {e a b : Compile.Expr} {ρ ρ1 : Compile.Env (coreSem F)} {va : Val} (h : Ok e ρ)
-    (hs : noCompound e = true → noCompound b = true) (ha : Compile.eval (coreSem F) a ρ = some (va, ρ1)) :
-    Ok b ρ1 :=
-  h.elim (fun h => Or.inl (hs h)) (fun h => Or.inr (ceval_plain F a ρ ρ1 va h ha).2)
-
-/-- **lockstep agreement.** On a well-formed expression inside the agreement envelope `Ok`, from
+/-- **lockstep agreement.** On a well-formed expression, from
 related environments and with any fuel `n ≥ need e`, `Compile.eval (coreSem F) e` and
 `Core.eval F n (toCore e)` both succeed — with the same value, related final environments and an
 unchanged output trace — or both fail. -/
 theorem lockstep (F : FloatOps) : ∀ (e : Compile.Expr) (ρ : Compile.Env (coreSem F)) (st : St) (n : Nat),
-    wfE e = true → Ok e ρ → EnvRel ρ st.env → need e ≤ n →
+    wfE e = true → EnvRel ρ st.env → need e ≤ n →
     Agree (Compile.eval (coreSem F) e ρ) (Core.eval F n (toCore e) st) st.out := by
   intro e
   induction e with
   | null | bool _ | int _ =>
-    intro ρ st n _ _ hr hn
+    intro ρ st n _ hr hn
     simp only [need] at hn
     obtain ⟨m, rfl⟩ : ∃ m, n = m + 1 := ⟨n - 1, by omega⟩
     simp only [toCore, Compile.eval, eval_lit']
     exact Agree.ok hr
   | var x =>
-    intro ρ st n _ _ hr hn
+    intro ρ st n _ hr hn
     simp only [need] at hn
     obtain ⟨m, rfl⟩ : ∃ m, n = m + 1 := ⟨n - 1, by omega⟩
     simp only [toCore, Compile.eval]
@@ -617,16 +429,15 @@ theorem lockstep (F : FloatOps) : ∀ (e : Compile.Expr) (ρ : Compile.Env (core
       rw [eval_var_some F m x st w hx, hr x, hx]
       exact Agree.ok hr
   | un op a iha =>
-    intro ρ st n hw hok hr hn
+    intro ρ st n hw hr hn
     simp only [need] at hn
     obtain ⟨m, rfl⟩ : ∃ m, n = m + 1 := ⟨n - 1, by omega⟩
     simp only [wfE] at hw
-    have hnc : noCompound (.un op a) = true → noCompound a = true := by simp [noCompound]
     rw [ceval_un]
     cases op with
     | neg =>
       simp only [toCore, eval_neg']
-      refine agree_bind (iha ρ st m hw (hok.mono hnc) hr (by omega)) ?_
+      refine agree_bind (iha ρ st m hw hr (by omega)) ?_
       intro va ρ1 s1 _ hr1 _
       show Agree ((ofExcept (negV F va)).map _) _ _
       cases negV F va with
@@ -634,54 +445,46 @@ theorem lockstep (F : FloatOps) : ∀ (e : Compile.Expr) (ρ : Compile.Env (core
       | ok r => exact Agree.ok hr1
     | not =>
       simp only [toCore, eval_not']
-      refine agree_bind (iha ρ st m hw (hok.mono hnc) hr (by omega)) ?_
+      refine agree_bind (iha ρ st m hw hr (by omega)) ?_
       intro va ρ1 s1 _ hr1 _
       exact Agree.ok hr1
   | bin op a b iha ihb =>
-    intro ρ st n hw hok hr hn
+    intro ρ st n hw hr hn
     simp only [need] at hn
     obtain ⟨m, rfl⟩ : ∃ m, n = m + 1 := ⟨n - 1, by omega⟩
     simp only [wfE, Bool.and_eq_true, Bool.not_eq_true'] at hw
-    have hnc : noCompound (.bin op a b) = true → noCompound a = true ∧ noCompound b = true := by
-      simp [noCompound]
     rw [ceval_bin]
     simp only [toCore, eval_arith']
-    refine agree_bind (iha ρ st m hw.1.2 (hok.mono fun h => (hnc h).1) hr (by omega)) ?_
+    refine agree_bind (iha ρ st m hw.1.2 hr (by omega)) ?_
     intro va ρ1 s1 ha hr1 _
-    refine agree_bind (ihb ρ1 s1 m hw.2 (hok.step (fun h => (hnc h).2) ha) hr1 (by omega)) ?_
+    refine agree_bind (ihb ρ1 s1 m hw.2 hr1 (by omega)) ?_
     intro vb ρ2 s2 _ hr2 _
     exact agree_arith hw.1.1 va vb hr2
   | cmp op a b iha ihb =>
-    intro ρ st n hw hok hr hn
+    intro ρ st n hw hr hn
     simp only [need] at hn
     obtain ⟨m, rfl⟩ : ∃ m, n = m + 2 := ⟨n - 2, by omega⟩
     simp only [wfE, Bool.and_eq_true] at hw
-    have hnc : noCompound (.cmp op a b) = true → noCompound a = true ∧ noCompound b = true := by
-      simp [noCompound]
     rw [ceval_cmp]
     simp only [toCore, eval_cmp']
-    refine agree_bind (iha ρ st (m + 1) hw.1.2 (hok.mono fun h => (hnc h).1) hr (by omega)) ?_
+    refine agree_bind (iha ρ st (m + 1) hw.1.2 hr (by omega)) ?_
     intro va ρ1 s1 ha hr1 _
     rw [evalChain_last]
-    refine agree_bind (ihb ρ1 s1 m hw.2 (hok.step (fun h => (hnc h).2) ha) hr1 (by omega)) ?_
+    refine agree_bind (ihb ρ1 s1 m hw.2 hr1 (by omega)) ?_
     intro vb ρ2 s2 _ hr2 _
     exact agree_cmp_last hw.1.1 va vb hr2
   | chain3 op1 op2 a b c iha ihb ihc =>
-    intro ρ st n hw hok hr hn
+    intro ρ st n hw hr hn
     simp only [need] at hn
     obtain ⟨m, rfl⟩ : ∃ m, n = m + 3 := ⟨n - 3, by omega⟩
     simp only [wfE, Bool.and_eq_true] at hw
     obtain ⟨⟨⟨⟨hop1, hop2⟩, hwa⟩, hwb⟩, hwc⟩ := hw
-    have hnc : noCompound (.chain3 op1 op2 a b c) = true →
-        noCompound a = true ∧ noCompound b = true ∧ noCompound c = true := by
-      simp only [noCompound, Bool.and_eq_true]; intro h; exact ⟨h.1.1, h.1.2, h.2⟩
     rw [ceval_chain3]
     simp only [toCore, eval_cmp']
-    refine agree_bind (iha ρ st (m + 2) hwa (hok.mono fun h => (hnc h).1) hr (by omega)) ?_
+    refine agree_bind (iha ρ st (m + 2) hwa hr (by omega)) ?_
     intro va ρ1 s1 ha hr1 _
     rw [evalChain_more]
-    have hok1 : Ok (.chain3 op1 op2 a b c) ρ1 := hok.elim Or.inl (fun h => Or.inr (ceval_plain F a ρ ρ1 va h ha).2)
-    refine agree_bind (ihb ρ1 s1 (m + 1) hwb (hok1.mono fun h => (hnc h).2.1) hr1 (by omega)) ?_
+    refine agree_bind (ihb ρ1 s1 (m + 1) hwb hr1 (by omega)) ?_
     intro vb ρ2 s2 hb hr2 _
     simp only [hop1, if_true]
     cases cmpV F (toCmp op1) va vb with
@@ -692,59 +495,50 @@ theorem lockstep (F : FloatOps) : ∀ (e : Compile.Expr) (ρ : Compile.Env (core
       | true =>
         simp only [Except.map, ofExcept, Val.truthy, if_true, chainStep]
         rw [evalChain_last]
-        refine agree_bind (ihc ρ2 s2 m hwc (hok1.step (fun h => (hnc h).2.2) hb) hr2 (by omega)) ?_
+        refine agree_bind (ihc ρ2 s2 m hwc hr2 (by omega)) ?_
         intro vc ρ3 s3 _ hr3 _
         exact agree_cmp_last hop2 vb vc hr3
   | and a b iha ihb =>
-    intro ρ st n hw hok hr hn
+    intro ρ st n hw hr hn
     simp only [need] at hn
     obtain ⟨m, rfl⟩ : ∃ m, n = m + 1 := ⟨n - 1, by omega⟩
     simp only [wfE, Bool.and_eq_true] at hw
-    have hnc : noCompound (.and a b) = true → noCompound a = true ∧ noCompound b = true := by
-      simp [noCompound]
     rw [ceval_and]
     simp only [toCore, eval_and]
-    refine agree_bind (iha ρ st m hw.1 (hok.mono fun h => (hnc h).1) hr (by omega)) ?_
+    refine agree_bind (iha ρ st m hw.1 hr (by omega)) ?_
     intro va ρ1 s1 ha hr1 _
     show Agree (if va.truthy = true then _ else _) _ _
     split
-    · exact ihb ρ1 s1 m hw.2 (hok.step (fun h => (hnc h).2) ha) hr1 (by omega)
+    · exact ihb ρ1 s1 m hw.2 hr1 (by omega)
     · exact Agree.ok hr1
   | or a b iha ihb =>
-    intro ρ st n hw hok hr hn
+    intro ρ st n hw hr hn
     simp only [need] at hn
     obtain ⟨m, rfl⟩ : ∃ m, n = m + 1 := ⟨n - 1, by omega⟩
     simp only [wfE, Bool.and_eq_true] at hw
-    have hnc : noCompound (.or a b) = true → noCompound a = true ∧ noCompound b = true := by
-      simp [noCompound]
     rw [ceval_or]
     simp only [toCore, eval_or]
-    refine agree_bind (iha ρ st m hw.1 (hok.mono fun h => (hnc h).1) hr (by omega)) ?_
+    refine agree_bind (iha ρ st m hw.1 hr (by omega)) ?_
     intro va ρ1 s1 ha hr1 _
     show Agree (if va.truthy = true then _ else _) _ _
     split
     · exact Agree.ok hr1
-    · exact ihb ρ1 s1 m hw.2 (hok.step (fun h => (hnc h).2) ha) hr1 (by omega)
+    · exact ihb ρ1 s1 m hw.2 hr1 (by omega)
   | assign x e ih =>
-    intro ρ st n hw hok hr hn
+    intro ρ st n hw hr hn
     simp only [need] at hn
     obtain ⟨m, rfl⟩ : ∃ m, n = m + 1 := ⟨n - 1, by omega⟩
     simp only [wfE] at hw
-    have hnc : noCompound (.assign x e) = true → noCompound e = true := by simp [noCompound]
     rw [ceval_assign]
     simp only [toCore, eval_assign]
-    refine agree_bind (ih ρ st m hw (hok.mono hnc) hr (by omega)) ?_
+    refine agree_bind (ih ρ st m hw hr (by omega)) ?_
     intro v ρ1 s1 _ hr1 _
     exact ⟨s1.set x v, rfl, hr1.set x v, rfl⟩
   | compound op x e ih =>
-    intro ρ st n hw hok hr hn
+    intro ρ st n hw hr hn
     simp only [need] at hn
     obtain ⟨m, rfl⟩ : ∃ m, n = m + 1 := ⟨n - 1, by omega⟩
     simp only [wfE, Bool.and_eq_true, Bool.not_eq_true'] at hw
-    have hp : PlainEnv ρ := by
-      rcases hok with h | h
-      · simp [noCompound] at h
-      · exact h
     rw [ceval_compound]
     simp only [toCore]
     cases hx : Core.lookup x st.env with
@@ -753,25 +547,22 @@ theorem lockstep (F : FloatOps) : ∀ (e : Compile.Expr) (ρ : Compile.Env (core
       exact Agree.err _ _ _
     | some vx =>
       rw [eval_opAssign_some F m x _ _ st vx hx, hr x, hx]
-      refine agree_bind (ih ρ st m hw.2 (Or.inr hp) hr (by omega)) ?_
+      refine agree_bind (ih ρ st m hw.2 hr (by omega)) ?_
       intro vr ρ1 s1 _ hr1 _
-      simp only [hw.1, Bool.false_eq_true, if_false]
-      rw [opAssignV_plain F _ vx vr (hp x vx (by rw [hr x, hx]))]
-      cases arithV F (toArith op) vx vr with
+      show Agree ((ofExcept (opAssignV F (toArith op) vx vr)).map _) _ _
+      cases opAssignV F (toArith op) vx vr with
       | error er => exact Agree.err er s1 _
       | ok r => exact ⟨s1.set x r, rfl, hr1.set x r, rfl⟩
   | seq a b iha ihb =>
-    intro ρ st n hw hok hr hn
+    intro ρ st n hw hr hn
     simp only [need] at hn
     obtain ⟨m, rfl⟩ : ∃ m, n = m + 4 := ⟨n - 4, by have := need_pos a; have := need_pos b; omega⟩
     simp only [wfE, Bool.and_eq_true] at hw
-    have hnc : noCompound (.seq a b) = true → noCompound a = true ∧ noCompound b = true := by
-      simp [noCompound]
     rw [ceval_seq]
     simp only [toCore, eval_block2]
-    refine agree_bind (iha ρ st (m + 2) hw.1 (hok.mono fun h => (hnc h).1) hr (by have := need_pos b; omega)) ?_
+    refine agree_bind (iha ρ st (m + 2) hw.1 hr (by have := need_pos b; omega)) ?_
     intro va ρ1 s1 ha hr1 _
-    have hb := ihb ρ1 s1 (m + 1) hw.2 (hok.step (fun h => (hnc h).2) ha) hr1 (by have := need_pos a; omega)
+    have hb := ihb ρ1 s1 (m + 1) hw.2 hr1 (by have := need_pos a; omega)
     cases hcb : Compile.eval (coreSem F) b ρ1 with
     | none =>
       rw [hcb] at hb
@@ -784,35 +575,95 @@ theorem lockstep (F : FloatOps) : ∀ (e : Compile.Expr) (ρ : Compile.Env (core
       rw [seq_ok_id h2]
       exact ⟨s2, rfl, hr2, ho2⟩
   | ite c t e ihc iht ihe =>
-    intro ρ st n hw hok hr hn
+    intro ρ st n hw hr hn
     simp only [need] at hn
     obtain ⟨m, rfl⟩ : ∃ m, n = m + 1 := ⟨n - 1, by omega⟩
     simp only [wfE, Bool.and_eq_true] at hw
-    have hnc : noCompound (.ite c t e) = true →
-        noCompound c = true ∧ noCompound t = true ∧ noCompound e = true := by
-      simp only [noCompound, Bool.and_eq_true]; intro h; exact ⟨h.1.1, h.1.2, h.2⟩
     rw [ceval_ite]
     simp only [toCore, eval_ifElse']
-    refine agree_bind (ihc ρ st m hw.1.1 (hok.mono fun h => (hnc h).1) hr (by omega)) ?_
+    refine agree_bind (ihc ρ st m hw.1.1 hr (by omega)) ?_
     intro vc ρ1 s1 hc hr1 _
     show Agree (if vc.truthy = true then _ else _) _ _
     split
-    · exact iht ρ1 s1 m hw.1.2 (hok.step (fun h => (hnc h).2.1) hc) hr1 (by omega)
-    · exact ihe ρ1 s1 m hw.2 (hok.step (fun h => (hnc h).2.2) hc) hr1 (by omega)
+    · exact iht ρ1 s1 m hw.1.2 hr1 (by omega)
+    · exact ihe ρ1 s1 m hw.2 hr1 (by omega)
   | ifThen c t ihc iht =>
-    intro ρ st n hw hok hr hn
+    intro ρ st n hw hr hn
     simp only [need] at hn
     obtain ⟨m, rfl⟩ : ∃ m, n = m + 1 := ⟨n - 1, by omega⟩
     simp only [wfE, Bool.and_eq_true] at hw
-    have hnc : noCompound (.ifThen c t) = true → noCompound c = true ∧ noCompound t = true := by
-      simp [noCompound]
     rw [ceval_ifThen]
     simp only [toCore, eval_ifThen]
-    refine agree_bind (ihc ρ st m hw.1 (hok.mono fun h => (hnc h).1) hr (by omega)) ?_
+    refine agree_bind (ihc ρ st m hw.1 hr (by omega)) ?_
     intro vc ρ1 s1 hc hr1 _
     show Agree (if vc.truthy = true then _ else _) _ _
     split
-    · exact iht ρ1 s1 m hw.2 (hok.step (fun h => (hnc h).2) hc) hr1 (by omega)
+    · exact iht ρ1 s1 m hw.2 hr1 (by omega)
     · exact Agree.ok hr1
+
+/-! ## the two directions -/
+
+/-- more fuel never changes a finished result (from `fuel_mono_succ`) -/
+theorem eval_fuel_add (F : FloatOps) (n : Nat) (e : Expr) (s s' : St) (v : Val)
+    (h : eval F n e s = (.ok v, s')) (k : Nat) : eval F (n + k) e s = (.ok v, s') := by
+  induction k with
+  | zero => exact h
+  | succ k ih =>
+    rcases (fuel_mono_succ F (n + k)).1 e s with ⟨s'', hs⟩ | heq
+    · rw [ih] at hs; cases hs
+    · rw [← ih]; exact heq.symm
+
+/-- guide ⊒ compiler model: a successful `Compile.eval (coreSem F)` run is a successful guide run
+with the same value, for every fuel `≥ need e`, ending in a related environment, printing nothing -/
+theorem bridge_fwd (F : FloatOps) (e : Compile.Expr) (ρ ρ' : Compile.Env (coreSem F)) (st : St) (v : Val)
+    (hw : wfE e = true) (hr : EnvRel ρ st.env)
+    (hev : Compile.eval (coreSem F) e ρ = some (v, ρ')) :
+    ∃ st', (∀ n, need e ≤ n → Core.eval F n (toCore e) st = (.ok v, st'))
+      ∧ EnvRel ρ' st'.env ∧ st'.out = st.out := by
+  have h0 := lockstep F e ρ st (need e) hw hr (Nat.le_refl _)
+  rw [hev] at h0
+  obtain ⟨st', h1, h2, h3⟩ := h0
+  refine ⟨st', ?_, h2, h3⟩
+  intro n hn
+  obtain ⟨k, rfl⟩ : ∃ k, n = need e + k := ⟨n - need e, by omega⟩
+  exact eval_fuel_add F _ _ _ _ _ h1 k
+
+/-- compiler model ⊒ guide: a successful guide run (any fuel) is a successful
+`Compile.eval (coreSem F)` run with the same value and a related environment -/
+theorem bridge_conv (F : FloatOps) (e : Compile.Expr) (ρ : Compile.Env (coreSem F)) (st st' : St) (v : Val)
+    (fuel : Nat) (hw : wfE e = true) (hr : EnvRel ρ st.env)
+    (hev : Core.eval F fuel (toCore e) st = (.ok v, st')) :
+    ∃ ρ', Compile.eval (coreSem F) e ρ = some (v, ρ') ∧ EnvRel ρ' st'.env ∧ st'.out = st.out := by
+  have h1 := eval_fuel_add F _ _ _ _ _ hev (need e)
+  have h0 := lockstep F e ρ st (fuel + need e) hw hr (by omega)
+  rw [h1] at h0
+  cases hc : Compile.eval (coreSem F) e ρ with
+  | none =>
+    rw [hc] at h0
+    obtain ⟨er, s2, h2⟩ := h0
+    cases h2
+  | some p =>
+    obtain ⟨v2, ρ2⟩ := p
+    rw [hc] at h0
+    obtain ⟨s2, h2, h3, h4⟩ := h0
+    cases h2
+    exact ⟨ρ2, rfl, h3, h4⟩
+
+/-- errors correspond too: `Compile.eval (coreSem F)` fails iff the guide run (with enough fuel)
+ends in an error -/
+theorem bridge_err_iff (F : FloatOps) (e : Compile.Expr) (ρ : Compile.Env (coreSem F)) (st : St) (n : Nat)
+    (hw : wfE e = true) (hr : EnvRel ρ st.env) (hn : need e ≤ n) :
+    Compile.eval (coreSem F) e ρ = none ↔ ∃ er st', Core.eval F n (toCore e) st = (.err er, st') := by
+  have h0 := lockstep F e ρ st n hw hr hn
+  constructor
+  · intro hc; rw [hc] at h0; exact h0
+  · intro ⟨er, s2, h2⟩
+    cases hc : Compile.eval (coreSem F) e ρ with
+    | none => rfl
+    | some p =>
+      obtain ⟨v2, ρ2⟩ := p
+      rw [hc, h2] at h0
+      obtain ⟨s3, h3, _⟩ := h0
+      cases h3
 
 end KotoVerif.C01
